@@ -200,7 +200,7 @@ theorem hunk_body_chain (cfg : Cfg) (m : M) (l : L)
   have e3 := handleDiffHeaderDiff_not_mine cfg m l (startsWith_false_of_bodyHead hb.2 nonBody_diffLine)
   have e4 := handleFileOperation_not_mine cfg m l (by simp [hlt])
   have e5 := handleMinusLine_not_mine cfg m l (by simp [minusLineTest, hlt])
-  have e6 := handlePlusLine_not_mine cfg m l (by simp [plusLineTest, hlt])
+  have e6 := handlePlusLine_not_mine cfg m l (by simp [plusLineTest, hnd])
   have e7 := handleHunkHeader_not_mine cfg m l (startsWith_false_of_bodyHead hb.2 nonBody_hunkHeader)
   have e8 := handleModeLine_not_mine cfg m l (startsWith_false_of_bodyHead hb.2 nonBody_oldMode)
     (startsWith_false_of_bodyHead hb.2 nonBody_newMode)
